@@ -57,3 +57,17 @@ CLAIMED.update({
 })
 ENGINES += [{"name": "AFFINE", "path": "sa/engines/affine.py", "serves_properties": ["C07", "C11"],
   "kind_free_text": "affine forms over symbolic atoms per local and tracked field, ghost totals, loop-head equalities inferred Houdini-style with exact rational linear algebra, obligations discharged by small non-negative combinations"}]
+
+CLAIMED.update({
+ "C03": {"engine": "ASM + INV", "technique": "static analysis: stack-effect interpretation of the assembled context switch and trampoline; byte-accurate interpretation of the C frame writer; ordering rules on the coroutine bookkeeping",
+         "text": "The object code is straight-line, so its stack/register effect is data-independent: decides for all register contents and nesting depths that every callee-saved register, MXCSR and the flags are restored from the slot they were saved in, the saved frame is not altered before the switch, net stack effect is zero, rax receives the message; that the C-built initial frame matches the restore layout slot by slot (function/handle/context/exit roles, loadable MXCSR image, aligned base); trampoline argument passing and alignment; and the bookkeeping around the switch incl. unconditional parent/caller/status on (re)start.",
+         "note": "trusts nasm/objdump and the psABI table; x87 control word not covered"},
+ "C04": {"engine": "TRACE (FLOW) + INV", "technique": "static analysis: path-by-path region traces with a registration/inverse table; reachability + contradiction rule on assertions; call-site role rule",
+         "text": "Structural necessary conditions of 'no stale wake-ups': every blocking primitive undoes each registration on every non-success resume path (or the deliverer reported it gone); pending grant/condition wake-ups are withdrawn; routines reached while unwinding never abort on membership/count; cancel_awaiteds is applied to the process that is then woken/stopped; hold arms exactly now+d and returns the resume value; deliverers resume their subject with the scheduled value and remove exactly their awaitable; wildcard event cancellation only in the unwinding routine.",
+         "note": "timing of arbitrary same-instant coincidences is not decided"},
+ "C09": {"engine": "TRACE (FLOW) + INV", "technique": "static analysis: must-precede path rule (clean-up before any way out incl. calls that may not return), enum exhaustiveness, who-writes",
+         "text": "On every path of exit/stop the ending process's awaiteds are cancelled, holdings dropped and waiters woken (right signal, right process) before returning or calling something that reaches cmi_coroutine_exit; unwinding handles every awaitable kind with its inverse, recycles every tag and cancels all pending events; drop callbacks invoked for every holding; status/exit value writers and the finished-never-resumed guard.",
+         "note": "same-instant ordering relative to other events not decided"},
+})
+ENGINES += [{"name": "ASM", "path": "sa/engines/asm.py", "serves_properties": ["C03"],
+  "kind_free_text": "abstract stack-effect interpreter over the disassembly of the assembled NASM unit (slot map, register provenance, alignment)"}]
